@@ -27,6 +27,7 @@ type Clause struct {
 	Name string // generated function name in the overlay (requires/ensures)
 	ID   string // known-finding id
 	IsLoop bool
+	OnVar  string // "on v: use ..." clauses: the assigned variable
 	ArgText string // "(args)" of a use clause
 	Quantified bool
 	DecName string // generated decrease-check function for a self-use
@@ -66,7 +67,7 @@ func (b *Block) Key() string {
 
 func (b *Block) QName() string { return b.PkgName + "." + b.Key() }
 
-var clauseKW = []string{"requires", "ensures", "loop", "split", "opaque", "prop", "decreases", "modifies", "assume", "inline", "nooverlay", "unsafe-ok", "havoc", "using", "trusted", "known", "reveal", "forall", "use", "inline", "witness", "return", "uninterpreted", "ghostarg"}
+var clauseKW = []string{"requires", "ensures", "loop", "split", "opaque", "prop", "decreases", "modifies", "assume", "inline", "nooverlay", "unsafe-ok", "havoc", "using", "trusted", "known", "reveal", "forall", "use", "inline", "witness", "return", "uninterpreted", "ghostarg", "on"}
 var blockKW = []string{"opaque spec func", "abstract func", "spec func", "lemma", "axiom", "assume func", "func", "assume-dep", "iface", "ghost"}
 
 func startsWithKW(s string, kws []string) string {
@@ -203,6 +204,18 @@ func ParseContractFile(path, pkgPath string) ([]*Block, error) {
 					return nil, fmt.Errorf("%s:%d: forall clause wants 'name Type'", path, ln)
 				}
 				cur.Ghosts = append(cur.Ghosts, [2]string{f[0], f[1]})
+			case "on":
+				// on v: use lemma(args): a lemma instance over the locals right after every
+				// assignment to the local variable v in the verified function
+				m := regexp.MustCompile(`^(\w+)\s*:\s*use\s+(.*)$`).FindStringSubmatch(rest)
+				if m == nil {
+					return nil, fmt.Errorf("%s:%d: on clause wants 'on var: use lemma(args)'", path, ln)
+				}
+				curClause.Kind = "use"
+				curClause.Text = strings.TrimSpace(m[2])
+				curClause.IsLoop = true
+				curClause.Loop = -3
+				curClause.OnVar = m[1]
 			case "return":
 				// return use lemma(args): a lemma instance over the locals at every return
 				if !strings.HasPrefix(rest, "use ") {
